@@ -319,8 +319,17 @@ def exact_offset(db, f):
                     env[v["d"]] = v["init"]
                     if "var" not in found and (v["t"] or {}).get("k") in ("int", "bool", "enum") and mentions_param(v["init"], f["params"][0]["d"]):
                         found["var"], found["t"] = v["d"], v["t"]
+            if x.get("k") == "bin" and x.get("op") in ("=", "+=", "-=") and isinstance(x.get("l"), dict) and x["l"].get("k") == "ref" and x["l"].get("dk") == "local" and "tgt" not in found:
+                # a local that is updated after its declaration (`target += stride * n`): its value from here on
+                d_ = x["l"]["d"]
+                if x["op"] == "=":
+                    env[d_] = x["r"]
+                elif d_ in env:
+                    env[d_] = {"k": "bin", "op": x["op"][0], "l": env[d_], "r": x["r"], "t": x.get("t") or x["l"].get("t"), "loc": x.get("loc")}
             if x.get("k") == "call" and (x.get("fn") or {}).get("n", "").endswith("is_in_same_sandbox") and len(x.get("args", [])) >= 2 and "tgt" not in found:
+                # the target as it is at the check: freeze the locals it mentions
                 found["tgt"] = x["args"][1]
+                found["env"] = dict(env)
             for v in x.values():
                 if isinstance(v, (dict, list)):
                     walk(v)
@@ -331,7 +340,7 @@ def exact_offset(db, f):
     walk(f["body"])
     if "var" not in found or "tgt" not in found:
         raise IvI("index variable / containment check not found")
-    env2 = {k: v for k, v in env.items() if k != found["var"]}
+    env2 = {k: v for k, v in (found.get("env") or env).items() if k != found["var"]}
     ev = Evaluator({found["var"]}, env2, ptr_zero=True)
     pieces = ev.ev(found["tgt"], [trange(found["t"])])
     return pieces, found["t"]
